@@ -2085,6 +2085,15 @@ class Interp:
                 if isinstance(a, (SeqV, NoneV, ObjV)):
                     return self.raise_(st, "struct.error", node)
         ok.events.append(("pack", self.where(node), fmt, [self.as_int(a) for a in args]))
+        if len(codes) > 1 and fmt[:1] in "<>!=" and fmt[1:] == "".join(codes):
+            # a multi-field format with an explicit byte order has no padding: it is the concatenation of its fields
+            pieces = []
+            for code, a in zip(codes, args):
+                f1 = fmt[0] + code
+                pieces.append(("pack:" + f1, LinExpr.c(struct.calcsize(f1)),
+                               [self.as_int(a) if self.as_int(a) is not None else _tag(a)]))
+            res.extend(self.val(ok, SeqV("bytes", size, pieces)))
+            return res
         res.extend(self.val(ok, SeqV("bytes", size, [("pack:" + fmt, LinExpr.c(size),
                                                        [self.as_int(a) if self.as_int(a) is not None else _tag(a)
                                                         for a in args])])))
